@@ -18,3 +18,7 @@ LEAN_SETTING_NOTE = (
 def specs_hermitian(tier):
     return (specs_evals(tier, algs=("main",)) + specs_wiring(tier, algs=("main",)) + specs_product(tier) + specs_index(tier)
             + specs_solver(tier) + specs_masks(tier))
+
+
+# vacuity guard: the class axioms and the generated equation structures are jointly satisfiable (degenerate witness A = Q)
+LEAN_VACUITY = ["PV.Inst.filt", "PV.Inst.blocks", "PV.Inst.twoBlocks", "PV.Inst.unperturbed", "PV.Inst.gapped", "PV.Inst.trivMainEqs", "PV.Inst.trivMainEqs2b"]
